@@ -1,13 +1,22 @@
 """C08 — the exported JSON schema is well-formed and admits every serialized valid instance.
 
-Proof obligations: Props/C08.v.  Ties to the code (all compared inside Coq):
-  1. model `to_schema` (Schema/ToSchema.v) vs the real `structure_to_schema` (JSON equality);
-  2. model `valid4` / `wf_doc` (Schema/Draft4.v), run on the REAL export parsed into the model's
-     syntax, vs the independent `jsonschema.Draft4Validator` (separate interpreter `python3-vt`);
+Proof obligations: Props/C08.v (per-declaration and class-level theorems, source ties C08_src_* over Gen/SchemaGuards.v,
+which harness/genmods/schema_guards.py regenerates from json_schema_mapping.py before every build).
+Ties to the code (all compared inside Coq):
+  1. model `to_schema` (Schema/ToSchema.v) vs the real `structure_to_schema` (JSON equality), on EVERY export of a
+     generated history of exports (first / repeated / parts first / interleaved / one shared definitions dict);
+  2. model `valid4` / `wf_doc` (Schema/Draft4.v), run on the REAL export parsed into the model's syntax, vs the
+     independent `jsonschema.Draft4Validator` (separate interpreter `python3-vt`);
   3. model serializer `ser_top` vs the real `serialize`.
 Oracle of the property itself: the independent validator on real serializer output against the real
-(dialect-translated) export, `check_schema` + $ref resolution; on the exact sub-fragment, documents near
-the schema boundary: validator-accepts must imply Deserializer-accepts."""
+(dialect-translated) export, `check_schema` + $ref resolution, for every export of the history; on the statement's
+exact sub-fragment (everything but Set / defaults / unanchored patterns / sign-only float bounds), boundary documents
+(schema-driven: every keyword contributes the points just inside and just outside, + random one-point perturbations):
+validator-accepts must imply Deserializer-accepts.
+Streams: random class environments; deterministic lattices (enum class x position; reference graph x linking
+construct x history, with class names reused across environments); extras outside the model (harness/c08extras.py).
+Failures are keyed by the smallest set of specific counterfactual repairs of the export that explains them (else by a
+generic key, which is a VIOLATION).  C08_DEBUG=1 prints the first model/implementation mismatches."""
 import copy
 import json
 import math
@@ -255,16 +264,20 @@ class Env(S.Context):
             return acc
 
         def walk(cname, m):
-            fields = {fd["name"]: fd["field"] for fd in self.all_fields(cname)}
-            for k, v in (m or {}).items():
-                if k.endswith("._mapper") and isinstance(v, dict) and k[:-8] in fields:
-                    for rn in refs(fields[k[:-8]], set()):
-                        if rn in self.classes and rn not in out:
-                            fn = set(self.classes[rn].get_all_fields_by_name().keys())
-                            out[rn] = [(a, b) for a, b in v.items() if a in fn and isinstance(b, str) and b != a]
-                            walk(rn, v)
+            for fd in self.all_fields(cname):
+                sub = (m or {}).get(fd["name"] + "._mapper")
+                for rn in sorted(refs(fd["field"], set())):
+                    if rn in self.classes and rn not in out:
+                        # without a '<field>._mapper' entry (e.g. under a Map) the nested instance is serialized with
+                        # its own aggregated mapper, which in turn propagates to the classes nested in it
+                        v = sub if isinstance(sub, dict) else (aggregate_serialization_mappers(self.classes[rn], None) or {})
+                        fn = set(self.classes[rn].get_all_fields_by_name().keys())
+                        out[rn] = [(a, b) for a, b in v.items() if a in fn and isinstance(b, str) and b != a]
+                        walk(rn, v)
 
-        walk(self.top, aggregate_serialization_mappers(self.classes[self.top], None) or {})
+        # the compact form of a field wrapper serializes the wrapped value without the wrapper's mapper
+        walk(self.top, {} if self.wrapper_form(self.top)
+             else (aggregate_serialization_mappers(self.classes[self.top], None) or {}))
         return out
 
     def wrapper_form(self, name):
@@ -1068,6 +1081,47 @@ def rep_bool_number(doc, ctx):
     walk_schemas(doc, fn)
 
 
+def has_json_bool(j):
+    if isinstance(j, bool):
+        return True
+    if isinstance(j, list):
+        return any(has_json_bool(x) for x in j)
+    if isinstance(j, dict):
+        return any(has_json_bool(x) for x in j.values())
+    return False
+
+
+def rep_bool_number_exact(doc, ctx):
+    """Exactness side: a JSON boolean is a Python int, so Number/Integer fields accept it (True == 1, False == 0)."""
+    if not has_json_bool(ctx.get("inst")):
+        return
+
+    def fn(s):
+        if s.get("type") in ("number", "integer") and "anyOf" not in s:
+            inner = dict(s)
+            s.clear()
+            s["anyOf"] = [inner, {"type": "boolean"}]
+            ctx["changed"] = True
+    walk_schemas(doc, fn)
+
+
+def rep_enum_python_eq(doc, ctx):
+    """Enum over literals tests membership with Python equality: False == 0 and True == 1 (JSON keeps them apart)."""
+    def fn(s):
+        if isinstance(s.get("enum"), list):
+            extra = []
+            for x in s["enum"]:
+                if isinstance(x, bool):
+                    extra.append(int(x))
+                elif isinstance(x, (int, float)) and x in (0, 1):
+                    extra.append(bool(x))
+            extra = [x for x in extra if not any(type(x) is type(y) and x == y for y in s["enum"])]
+            if extra:
+                s["enum"] = s["enum"] + extra
+                ctx["changed"] = True
+    walk_schemas(doc, fn)
+
+
 def rep_wrapper_none(doc, ctx):
     env = ctx["env"]
     if env.wrapper_form(env.top) and len(ctx["kwargs"]) == 1 and ctx["kwargs"][0][1][0] == "none":
@@ -1164,6 +1218,24 @@ def rep_literal_member(doc, ctx):
     class_walk(env, env.top, doc, doc, fn, set())
 
 
+def rep_literal_member_exact(doc, ctx):
+    """Exactness side of the same defect: the export lists the member's NAME, which the field (membership in the
+    declared list) does not accept; the stricter export lists the member's value instead."""
+    env = ctx["env"]
+
+    def fn(f, s_):
+        if f["t"] == "enumlit" and isinstance(s_.get("enum"), list) and any(v[0] == "enum" for v in f["values"]):
+            out = []
+            for v in f["values"]:
+                if v[0] != "enum":
+                    out.append(G.unreify(v))
+                elif v[3][0] in ("int", "flt", "str", "bool"):
+                    out.append(G.unreify(v[3]))
+            s_["enum"] = out or ["\u0000no-such-value"]
+            ctx["changed"] = True
+    class_walk(env, env.top, doc, doc, fn, set())
+
+
 def has_subclass_struct(r, env):
     if isinstance(r, (list, tuple)):
         if len(r) == 3 and r[0] == "struct" and isinstance(r[1], str):
@@ -1225,10 +1297,13 @@ COMPLETE_REPAIRS = [("sign-dropped-under-explicit-bound", rep_sign),
 # exactness: a repair explains "admitted by the schema, rejected by the Deserializer" when the repaired (stricter)
 # schema rejects the document
 EXACT_REPAIRS = [("sign-dropped-under-explicit-bound", rep_sign),
+                 ("enum-member-among-literals-serialized-as-stored", rep_literal_member_exact),
                  ("positional-items-admit-shorter-arrays", rep_positional_min),
                  ("nested-field-wrapper", rep_wrapper),
                  ("Map-size-exported-as-minItems-maxItems", rep_map_sizes),
-                 ("Boolean-string-form-stored-raw", rep_bool_strings)]
+                 ("Boolean-string-form-stored-raw", rep_bool_strings),
+                 ("bool-value-under-numeric-field", rep_bool_number_exact),
+                 ("Enum-literals-compared-with-Python-equality", rep_enum_python_eq)]
 
 
 def apply_repairs(doc, repairs, ctx):
@@ -1588,6 +1663,10 @@ def deep_culprit(env, f, v, depth=0):
             inner = [deep_culprit(env, f["vf"], x, depth + 1) for x in v.values() if rejects_alone(env, f["vf"], x)]
             if inner:
                 return "mapkv(%s)" % "+".join(sorted(set(inner)))
+        if t in ("seqpos", "tuple") and isinstance(v, list) and (len(f["items"]) > 1 or t == "seqpos"):
+            inner = [deep_culprit(env, g, x, depth + 1) for g, x in zip(f["items"], v) if rejects_alone(env, g, x)]
+            if inner:
+                return "%s(%s)" % (t, "+".join(sorted(set(inner))))
     return field_kind(f)
 
 
@@ -1612,7 +1691,9 @@ def exact_culprit(env, doc, exn):
 def field_kind(f):
     t = f["t"]
     if t == "enumcls":
-        return "enumcls-%s%s" % (X.mixin_of(G.ENUMS[f["cls"]]), "-by-value" if f["cls"] in G.BY_VALUE else "")
+        subset = len(f["members"]) < len(list(G.ENUMS[f["cls"]]))
+        return "enumcls-%s%s%s" % (X.mixin_of(G.ENUMS[f["cls"]]), "-by-value" if f["cls"] in G.BY_VALUE else "",
+                                   "-subset" if subset else "")
     if t in ("seqeach", "set"):
         return "%s(%s)" % (t, field_kind(f["item"])) if f.get("item") else t
     if t == "mapkv":
@@ -1811,7 +1892,7 @@ def run(rep, tier):
                 if verdict and not acc:
                     n_exact_dis += 1
                     exact_fail.append({"doc": job["doc"], "inst": (j,), "want": False, "exn": exn, "ev": ev,
-                                       "ctx": {"env": env, "eff": eff, "kwargs": []}})
+                                       "ctx": {"env": env, "eff": eff, "kwargs": [], "inst": j}})
     try:
         wkeys = classify(wf_fail, WF_REPAIRS, "C08/wf/",
                          lambda f: "C08/wf/%s/%s" % ((f["res"]["schema_error"] or {"keyword": "$ref"})["keyword"],
